@@ -37,7 +37,7 @@ IGNORE_MSGS = ('aborting due to',)
 
 
 def run_verus(crate_dir, modules, rlimit=50, seed=0, extra=(), timeout=3000, log_path=None):
-    cmd = ['verus', '--crate-type=lib', os.path.join(crate_dir, 'src', 'lib.rs'), '--no-lifetime',
+    cmd = ['verus', '--crate-type=lib', os.path.join(crate_dir, 'src', 'lib.rs'),
            '--multiple-errors', '500', '--error-format=json', '--output-json', '--time', '--rlimit', str(rlimit)]
     for m in modules:
         cmd += ['--verify-module', m]
